@@ -86,7 +86,7 @@ int Sched::pickNext(bool selfEnabled, bool yielding) {
     if (best == nullptr) return -1;
     for (auto t : threads) if (t != best && t->st != ThreadCtl::DONE && t->st != ThreadCtl::WAIT_COND_TIMED && t->st != ThreadCtl::WAIT_COND) othersAlive = true;
     if (!othersAlive && ++best->timeouts > 4) return -1;  // only waiters are left and nobody will ever signal them
-    if (best->deadlineUs > vp::g_vnowUs) vp::g_vnowUs = best->deadlineUs;
+    if (best->deadlineUs > vp::vclockGet()) vp::vclockSet(best->deadlineUs);
     best->timedOut = true;
     best->signalled = true;
     if (logging) trace.push_back(std::string("  [sched] timeout fires for ") + best->name);
